@@ -1,10 +1,13 @@
 #!/bin/bash
 # Build the overlay venv (offline): /venv packages + z3-solver, crosshair-tool, cvc5 from the wheelhouse.
+# Serialised with a lock so that checks started concurrently after a fresh restore do not race.
 set -e
 cd "$(dirname "$0")"
-if [ -x .venv/bin/python ] && .venv/bin/python -c "import z3, pycparser, numpy, cffi, xobjects" 2>/dev/null; then
-  exit 0
-fi
+ok() { [ -x .venv/bin/python ] && .venv/bin/python -c "import z3, pycparser, numpy, cffi, xobjects" 2>/dev/null; }
+if ok; then exit 0; fi
+exec 9>.venv.lock
+flock 9
+if ok; then exit 0; fi
 rm -rf .venv
 /venv/bin/python -m venv .venv
 SP=$(.venv/bin/python -c "import site; print(site.getsitepackages()[0])")
